@@ -38,10 +38,10 @@ type DB struct {
 	// executing the call (error injection). It may panic (crash sentinel) or block (scheduler).
 	Before func(c *Call) error
 	// After is called when the inner call returned.
-	After func(c *Call, err error)
-	mu    sync.Mutex
-	N     int64 // number of calls that reached the store
-	Log   []string
+	After   func(c *Call, err error)
+	mu      sync.Mutex
+	N       int64 // number of calls that reached the store
+	Log     []string
 	KeepLog bool
 }
 
